@@ -101,6 +101,14 @@ PROPS = {
         "assumptions": ["documents are SDL v2 produced by the structural generator; no include directives"],
         "units": [{"pkg": "sdl", "run": "^TestVerif_C18$", "checks": {Q: 1500, T: 40000}, "shards": {Q: 2, T: 16}, "timeout": {Q: 600, T: 3000}, "shrinktime": "30s"}],
     },
+    "C11": {
+        "level": "exploration", "floor": 0.5,
+        "technique": "property-based testing: generated lease ids x manifest groups x provider settings through the real builders and client.Deploy on fake clientsets; recorded API actions and stored objects checked; small semantic NetworkPolicy evaluator over probe flows",
+        "level_text": "For generated leases (extreme and textually near-colliding ids), manifest groups (1-4 services, env incl. AKASH_* overrides, TCP/UDP global/local exposes, resources at and between bounds) and settings (commit levels 0.5-8, static ingress hosts, network policies, runtime classes): every builder object and every action recorded by the fake clientsets during two Deploy rounds is confined to the lease's namespace; containers are unprivileged without escalation or service-account token; limits equal the lease and 0 < requests <= limits; namespace names are valid DNS labels and injective over the run; with policies enabled a NetworkPolicy evaluator admits ingress from outside only for the ingress controller or globally exposed ports and no non-DNS egress to RFC1918 ranges.",
+        "level_note": "Trusted: client-go fake clientsets as the recording cluster; the harness's NetworkPolicy evaluator (standard additive allow semantics); 'private ranges' = RFC1918.",
+        "assumptions": ["manifest groups are valid per ValidateManifest; a Deploy error is a refusal, not a violation"],
+        "units": [{"pkg": "provider/cluster/kube", "run": "^TestVerif_C11$", "checks": {Q: 400, T: 8000}, "shards": {Q: 2, T: 16}, "timeout": {Q: 600, T: 3000}, "shrinktime": "30s"}],
+    },
     "C15": {
         "level": "exploration",
         "technique": "property-based testing: rapid state machine vs per-subscriber FIFO model + generated concurrent runs with schedule-independent order oracle",
